@@ -442,6 +442,7 @@ fn main() {
     let root = tmp.join("r");
     if let Some(f) = a.get("cases") {
         for line in std::fs::read_to_string(f).unwrap().lines() {
+            fbrh::util::crumb(line);
             if line.trim().is_empty() {
                 continue;
             }
